@@ -47,3 +47,28 @@ MUTANTS["C05"] = [
     ("dio-read-no-none-check", [(M3, "        response = self.query(f'PI,B,{pin}')\n        if response is None:\n            return None\n", "        response = self.query(f'PI,B,{pin}')\n")]),
     ("command-no-cr-strip", [(S3, "        cmd = cmd.strip() # Remove leading, trailing whitespace, if any.", "        cmd = cmd.strip(' ') # Remove leading, trailing whitespace, if any.")]),
 ]
+
+SS = "plotink/ebb_serial.py"
+EMO = "plotink/ebb_motion.py"
+MUTANTS["C06"] = [
+    ("sm-swap-dx-dy", [(EMO, "        str_output = 'SM,{0},{1},{2}\\r'.format(duration, delta_y, delta_x)", "        str_output = 'SM,{0},{1},{2}\\r'.format(duration, delta_x, delta_y)")]),
+    ("ebb3-sm-swap", [(M3, "        str_output = f'SM,{duration},{delta_y},{delta_x}'", "        str_output = f'SM,{duration},{delta_x},{delta_y}'")]),
+    ("hm-swap-positions", [(EMO, "            str_output = 'HM,{0},{1},{2}\\r'.format(rate, position1, position2)", "            str_output = 'HM,{0},{2},{1}\\r'.format(rate, position1, position2)")]),
+    ("clamp-1-5", [(EMO, "    res = max(res, 0)\n    res = min(res, 5)", "    res = max(res, 1)\n    res = min(res, 5)")]),
+    ("chunk-1000", [(M3, "            if pause_time > 750:\n                time_delay = 750", "            if pause_time > 1000:\n                time_delay = 1000")]),
+    ("lm-suppress-or", [(EMO, "        if ((rate1 == 0 and accel1 == 0) or steps1 == 0) and\\\n                ((rate2 == 0 and accel2 == 0) or steps2 == 0):", "        if ((rate1 == 0 and accel1 == 0) or steps1 == 0) or\\\n                ((rate2 == 0 and accel2 == 0) or steps2 == 0):")]),
+    ("sc-wrong-index", [(M3, '        self.command(f"SC,11,{pen_up_rate}")', '        self.command(f"SC,12,{pen_up_rate}")')]),
+    ("pd-direction-dropped", [(M3, "        self.command(f'PD,B,{pin},{direction}') # Configure I/O pin as output or input", "        self.command(f'PD,B,{pin},0') # Configure I/O pin as output or input")]),
+    ("abs-move-truthiness", [(M3, "        if (position1 is not None) and (position2 is not None):", "        if position1 and position2:")]),
+    ("sr-state-truthiness", [(EMO, "        if state is None:\n            str_output = 'SR,{0}\\r'.format(timeout_ms)", "        if not state:\n            str_output = 'SR,{0}\\r'.format(timeout_ms)")]),
+    ("motors-enable-em-order", [(M3, "        self.command(f'EM,{resolution_1},{resolution_2}')\n        # print", "        self.command(f'EM,{resolution_2},{resolution_1}')\n        # print")]),
+]
+MUTANTS["C07"] = [
+    ("add-qs-to-no-ok", [(SS, '["a", "i", "mr", "pi", "qm", "qg", "v"]', '["a", "i", "mr", "pi", "qm", "qg", "v", "qs"]')]),
+    ("retry-bound-10", [(SS, "            while len(response) == 0 and n_retry_count < 100:\n                # get new response to replace null response if necessary\n                response = port_name.readline().decode('ascii')\n                n_retry_count += 1\n            if cmd.split", "            while len(response) == 0 and n_retry_count < 10:\n                # get new response to replace null response if necessary\n                response = port_name.readline().decode('ascii')\n                n_retry_count += 1\n            if cmd.split")]),
+    ("ok-skip-retry-99", [(SS, "                while len(unused_response) == 0 and n_retry_count < 100:", "                while len(unused_response) == 0 and n_retry_count < 99:")]),
+    ("command-write-in-loop", [(SS, "                # get new response to replace null response if necessary\n                response = port_name.readline().decode('ascii')\n                n_retry_count += 1\n            if response.strip().startswith(\"OK\"):", "                # get new response to replace null response if necessary\n                port_name.write(cmd.encode('ascii'))\n                response = port_name.readline().decode('ascii')\n                n_retry_count += 1\n            if response.strip().startswith(\"OK\"):")]),
+    ("query-except-narrowed", [(SS, "        except (serial.SerialException, IOError, RuntimeError, OSError) as err:\n            if verbose:\n                logger.error(\"Error reading serial data\")", "        except serial.SerialException as err:\n            if verbose:\n                logger.error(\"Error reading serial data\")")]),
+    ("command-strips-request", [(SS, "            port_name.write(cmd.encode('ascii'))\n            response = port_name.readline().decode('ascii')\n            n_retry_count = 0\n            while len(response) == 0 and n_retry_count < 100:\n                # get new response to replace null response if necessary\n                response = port_name.readline().decode('ascii')\n                n_retry_count += 1\n            if response.strip()", "            port_name.write(cmd.strip().encode('ascii') + b'\\r')\n            response = port_name.readline().decode('ascii')\n            n_retry_count = 0\n            while len(response) == 0 and n_retry_count < 100:\n                # get new response to replace null response if necessary\n                response = port_name.readline().decode('ascii')\n                n_retry_count += 1\n            if response.strip()")]),
+    ("query-returns-stripped-or-none", [(SS, "        return response\n    return None\n\n\ndef command", "        return response or None\n    return None\n\n\ndef command")]),
+]
